@@ -3,7 +3,7 @@
    agree : observed = engine model (the model never diverges: a ["hang"] disagrees);
    prop  : against the independent list semantics (Denote.d_combine_values, d_combine_globally,
            d_combine_values_grouped, d_distinct ... = the fold of the combiner over the values in
-           order): the observed rows equal the reference modulo canon and, when the program ends
+           order): the observed rows equal the reference (comparison mode Canon.cmp_of) and, when the program ends
            in the combine, additionally: per-key combines - keyed rows with pairwise distinct keys,
            as many as distinct input keys; global combine - exactly one element (also for an empty
            input); distinct - no row twice.  Min / Max over nothing is a panic in the reference
@@ -23,7 +23,7 @@ Definition combine_shape (s : src) (steps : list step) (rows : list val) : bool 
       | _ => true
       end
   | Some (SCombineGlobally _ _ _) => Nat.eqb (List.length rows) 1
-  | Some SDistinct | Some SDistinctPerKey => nodup_vals (map deep_sort rows)
+  | Some SDistinct | Some SDistinctPerKey => nodup_vals rows
   | _ => true
   end.
 
